@@ -14,6 +14,7 @@ class Facts:
         self.aliases = {}
         self.statics = []
         self.bodies = {}      # id -> body  (generic ids start with "G:")
+        self.aux_bodies = {}  # promoted constants ("P:<fn>:<n>") and const items ("C:<path>")
         self.hir = {}         # def path -> hir tree
         self.meta = None
         self.ast_adts = {}    # (file, line, name) -> record with #[serde(..)] attributes from the expanded AST
@@ -23,7 +24,10 @@ class Facts:
                 r = json.loads(line)
                 k = r['k']
                 if k == 'body':
-                    self.bodies[r['id']] = r
+                    if r['id'][:2] in ('P:', 'C:'):
+                        self.aux_bodies[r['id']] = r
+                    else:
+                        self.bodies[r['id']] = r
                 elif k == 'adt':
                     self.adts[r['path']] = r
                 elif k == 'trait':
